@@ -120,13 +120,22 @@ fn run_big(rec: &mut Rec, d: &Value) {
                   tl + Point::new(-1, h / 2), tl + Point::new(w, h / 2), tl + Point::new(w / 2, -1), tl + Point::new(w / 2, h), tl + Point::new(-3, -3), tl + Point::new(w + 2, h + 2)] {
             probes.push(json!([p.x, p.y, s.contains(p) as i32]));
         }
+        // probes on the other side of the coordinate space (differences of coordinates exceed 32 bits there)
+        if tl.x.unsigned_abs() > 1_000_000_000 || tl.y.unsigned_abs() > 1_000_000_000 {
+            for p in [Point::new(-tl.x, tl.y + 1), Point::new(tl.x + 1, -tl.y), Point::new(-tl.x, -tl.y), Point::new(i32::MAX, tl.y + 1), Point::new(tl.x + 1, i32::MIN)] {
+                if !bb.contains(p) {
+                    probes.push(json!([p.x, p.y, s.contains(p) as i32]));
+                }
+            }
+        }
         let (first, _) = s.points(12);
-        (bb, probes, first)
+        let first_in: Vec<i32> = first.iter().map(|p| s.contains(*p) as i32).collect();
+        (bb, probes, first, first_in)
     });
     match r {
-        Ok((bb, probes, first)) => {
+        Ok((bb, probes, first, first_in)) => {
             rec.nontrivial();
-            rec.ev("big", json!({"kind": s.kind(), "bbox": rect_json(&bb), "probes": probes, "first": pts_json(first)}));
+            rec.ev("big", json!({"kind": s.kind(), "bbox": rect_json(&bb), "probes": probes, "first": pts_json(first), "first_in": first_in}));
         }
         Err(p) => {
             rec.note("panicked_cases");
@@ -297,6 +306,15 @@ fn main() {
         let d = rng.u32r(0, if th { 100 } else { 40 });
         run_case(&mut rec, &json!({"k":"sector","tl":[rng.i32(-9, 9), rng.i32(-9, 9)],"d":d,"a0":rng.i32(-720*16, 720*16),"sw":rng.i32(-720*16, 720*16)}));
     }
+    // sectors with sweeps just below / above half a turn, just below a full turn and too small to be resolved
+    for &dia in &[9u32, 21, 34] {
+        for a in (0..360).step_by(45) {
+            for swm in [179_980, 179_950, -179_980, 180_020, -180_030, 359_980, -359_990, 20, -30, 1] {
+                let sw16 = (swm as i64 * 16 / 1000) as i32;
+                run_case(&mut rec, &json!({"k":"sector","tl":[-6, 3],"d":dia,"a0":(a as i32 - 90) * 16,"sw":sw16,"swm":swm}));
+            }
+        }
+    }
     // very large shapes
     for shape in [
         json!({"k":"ellipse","tl":[-7, 3],"size":[40000, 40000]}), json!({"k":"ellipse","tl":[5, -9],"size":[33001, 33001]}),
@@ -307,6 +325,9 @@ fn main() {
         json!({"k":"rrect","r":[1, 1, 70000, 2],"radii":[[50000, 9], [70000, 1], [3, 70000], [65000, 65000]]}),
         json!({"k":"rrect","r":[0, 0, 500, 400],"radii":[[5000000, 5000000], [5000000, 5000000], [5000000, 5000000], [5000000, 5000000]]}),
         json!({"k":"rect","r":[-100000, -100000, 200001, 200001]}),
+        json!({"k":"rect","r":[-2000000000, -2000000000, 7, 5]}), json!({"k":"rect","r":[2000000000, -1999999990, 40, 3]}),
+        json!({"k":"triangle","v":[[-2000000000, -2000000000], [-1999999980, -1999999995], [-1999999990, -1999999970]]}),
+        json!({"k":"triangle","v":[[-10, 7], [59990, 10], [20000, 12]]}), json!({"k":"triangle","v":[[-10, 7], [30000, 9], [12000, 12]]}),
     ] {
         run_case(&mut rec, &json!({"k":"big","shape":shape}));
     }
